@@ -2,12 +2,17 @@ package rules
 
 import (
 	"fmt"
+	"os"
 	"strings"
 
 	"cadcheck/core"
 )
 
-func init() { register("SIBPROBE", sibProbe) }
+func init() {
+	if os.Getenv("CADCHECK_DEV") != "" {
+		register("SIBPROBE", sibProbe)
+	}
+}
 
 // sibProbe is a development aid: prints every sibling group that does not fully unify.
 func sibProbe(r *core.Run) {
